@@ -1,5 +1,6 @@
 """C03 — Answers depend on the circuit, not on what was asked before (twin-run history differential)."""
 import contextlib
+import os
 import random
 from typing import Any, Dict, List, Optional, Tuple
 
@@ -24,7 +25,7 @@ META = {
     ],
     "floors": {
         "quick": {"histories": 2500, "final_snapshots_compared": 2500, "intermediate_time_reads_vs_model": 20000, "events_set_reg": 800,
-                  "events_enter_override": 800, "events_plot_compact": 500, "events_plot_full": 500, "events_apply_modifiers": 800, "events_flatten": 300, "grow_applied": 150, "grow_inner_applied": 60},
+                  "events_enter_override": 800, "events_plot_compact": 500, "events_plot_full": 500, "events_apply_modifiers": 800, "events_flatten": 300, "grow_applied": 150, "grow_inner_applied": 300},
         "thorough": {"histories": 30000, "final_snapshots_compared": 30000, "intermediate_time_reads_vs_model": 250000},
     },
 }
@@ -268,9 +269,15 @@ class Run:
             j = e["inner"]
             if j >= len(child.children) or child.children[j] is None:
                 return
-            ordinal = sum(1 for c in child.children[:j] if c is not None)
+            # the node iterator lists a graph breadth-first over its relations, not in the order of the add calls: the ordinal is
+            # taken in the iteration order of the ORIGINAL sub-circuit (its add() handles are nodes of that structure) and carried
+            # over to the nested copy (growth only ever appends leaves, which leaves the relative order of the blocks alone)
+            src_blocks = [o for o in snap.walk_nodes(child.circuit.circuit_structure) if snap.is_composite(o)]
+            ordinal = next((k for k, o in enumerate(src_blocks) if o is child.handles[j]), None)
             blocks = [o for o in snap.walk_nodes(handle) if snap.is_composite(o)]
-            if ordinal >= len(blocks) or len(blocks) != sum(1 for c in child.children if c is not None):
+            resolved = ordinal is not None and len(blocks) == len(src_blocks) and \
+                sorted(snap.op_sig(o) for o in snap.walk_leaves(blocks[ordinal])) == sorted(snap.op_sig(o) for o in snap.walk_leaves(src_blocks[ordinal]))
+            if not resolved:
                 if self.acc is not None:
                     self.acc.count("grow_inner_unresolved")
                 return
@@ -297,10 +304,8 @@ class Run:
             if parent is None:
                 self.model_ok = False
         M.attach(child.mnodes, mnode, parent, M.FB)
-        if inner:
-            # the reference model does not follow a new head two levels deep (two histories of the unchanged tree place it later
-            # than the model, unclassified - DESIGN.md 7, round 16): from here on only the twin-run differential decides
-            self.model_ok = False
+        if inner and os.environ.get("VERIF_C03_DEEP_MODEL") == "0":
+            self.model_ok = False       # debugging aid: judge deep growth by the twin-run differential only
         if self.acc is not None:
             self.acc.count("grow_inner_applied" if inner else "grow_applied")
 
